@@ -97,6 +97,8 @@ class Check(c01.Check):
                                      'poison_canon': (runs[k][i].get('poison') or {}).get('canon')}
                                  for k in keys},
                          'thread_errors': [runs[k][0].get('thread_errors') for k in keys if runs[k] and runs[k][0].get('thread_errors')],
+                         'args_probe': {k: runs[k][0].get('args_probe') for k in keys} if i == 0 else None,
+                         'hang': {k: True for k in keys if runs[k][i].get('hang')},
                          'residue_after_threads': [runs[k][0].get('residue_after_threads') for k in keys if runs[k]]})
         self._impl_outs = outs
         return outs
@@ -108,11 +110,20 @@ class Check(c01.Check):
         return c01.Check.compare(self, case['prog'], io['ref'], mo)
 
     def oracle(self, case, io):
+        if io.get('hang'):
+            return {'what': f'a build did not return (after a {"failing " + case["poison"]["kind"] if case.get("poison") else "previous"} build) '
+                            f'under {sorted(io["hang"])}: the build lock or the build context was left behind',
+                    'signature': 'c20:hang'}
+        for k, probs in (io.get('args_probe') or {}).items():
+            if probs:
+                return {'what': f'{k}: {probs[0]}', 'signature': 'c20:build-arguments'}
         ref = io['ref']['canon']
         for k, v in io['all'].items():
             for which in ('first', 'second', 'threaded'):
                 got = v.get(which)
                 if which == 'threaded' and got is None:
+                    continue
+                if got in ('NOT-RUN', None) or ref == 'NOT-RUN':
                     continue
                 if got is not None and got != ref:
                     return {'what': f'build under {k} ({which}) differs from the reference build: '
